@@ -2,36 +2,18 @@ package decoder
 
 import (
 	"context"
-	"strings"
 
 	"github.com/hashicorp/hcl-lang/schema"
-	"github.com/hashicorp/hcl-lang/validator"
 	"github.com/hashicorp/hcl/v2"
 	"github.com/zclconf/go-cty/cty"
 )
 
-func verifValidators() []validator.Validator {
-	return []validator.Validator{
-		validator.BlockLabelsLength{}, validator.DeprecatedAttribute{}, validator.DeprecatedBlock{},
-		validator.MaxBlocks{}, validator.MinBlocks{}, validator.MissingRequiredAttribute{},
-		validator.UnexpectedAttribute{}, validator.UnexpectedBlock{},
-	}
-}
 
 // C15 (K): with the stock validators, the diagnostics of a file are exactly
 // the violations present. The schema's flags and limits are symbolic; the
 // configuration is generated from concrete counts. The specification counts
 // the expected diagnostics per kind.
 
-func verifCountDiags(diags hcl.Diagnostics, prefix string) int {
-	n := 0
-	for _, d := range diags {
-		if strings.HasPrefix(d.Summary, prefix) {
-			n++
-		}
-	}
-	return n
-}
 
 func verifB2I(b bool) int { return verifIteInt(b, 1, 0) }
 
